@@ -97,9 +97,9 @@ Record item := mki {
   i_who : option N; i_idx : Z; i_raw : bool; i_root : N; i_sig : gsig; i_prop : bool; i_inner : bool }.
 
 (* core/gater.go *)
-Record gate := mkg { g_type_valid : bool; g_duty_slot : nat; g_now_slot : nat; g_spe : nat; g_allowed : nat }.
+Record gate := mkg { g_type_valid : bool; g_duty_slot : N; g_now_slot : N; g_spe : N; g_allowed : N }.
 Definition gate_ok (g : gate) : bool :=
-  g_type_valid g && Nat.leb (g_duty_slot g / g_spe g) (g_now_slot g / g_spe g + g_allowed g).
+  g_type_valid g && N.leb (g_duty_slot g / g_spe g) (g_now_slot g / g_spe g + g_allowed g).
 
 Inductive entrance := VApi (self : Z) | Peer (g : gate) (decode_ok : bool).
 
